@@ -3,7 +3,7 @@ from .. import core, probe, pscommon as pc
 
 LEVEL = "exploration"
 ENGINE = "progspace"
-TECHNIQUE = "bounded exhaustive exploration: every edge pack (breaking, harmless and neutral) loaded into ONE environment through the public API; the three laws evaluated on every same-named function / variable / type pair across the two corpora and on every pair of types inside a corpus"
+TECHNIQUE = "bounded exhaustive exploration: every edge pack (breaking, harmless and neutral) loaded into ONE environment through the public API; the three laws evaluated on every same-named function / variable / type pair across the two corpora, on every pair of array / pointer / qualified / enum / typedef types across the corpora whatever their names, and on every pair of types inside a corpus"
 RULE = ("binary pairs = packs of all breaking edges, all harmless edges and all neutral edges of the node set (C05-C07), plus each seed program against its changed variant and against itself; for each pair the in-process probe "
         "checks: a==b <=> b==a; a==b => hash(a)==hash(b); compute_diff(a,b)->has_changes() <=> !(a==b). Non-trivial: pairs that are not equal.")
 TEXT = "Every artifact pair of every generated binary pair; the probe uses only operator==, hash_type_or_decl and compute_diff."
